@@ -267,11 +267,12 @@ Definition step (c : cfg) (s : istate) (o : op) : reply * istate :=
             match lookup_reply c s t with
             | (RIno i, s1) =>
                 if existed then
-                  (* open_inode(entry.inode): is_safe_inode, then the host open *)
+                  (* open_inode(entry.inode): is_safe_inode, then the host open; on failure the
+                     reference taken by do_lookup is given back (forget_one(entry.inode, 1)) *)
                   match dget s1 i with
-                  | Some d => if i_safe d then (if open_ok then (RIno i, s1) else (RHostErr, s1))
-                              else (RErr EBADF, s1)
-                  | None => (RErr EBADF, s1)
+                  | Some d => if i_safe d then (if open_ok then (RIno i, s1) else (RHostErr, forget_one c s1 i 1))
+                              else (RErr EBADF, forget_one c s1 i 1)
+                  | None => (RErr EBADF, forget_one c s1 i 1)
                   end
                 else (RIno i, s1)
             | r => r
@@ -319,17 +320,26 @@ Definition spec_step (f : N -> N) (o : op) (r : reply) : N -> N :=
   | _, _ => f
   end.
 
-(* the known defect (DESIGN.md D9): create on a name that already exists takes the lookup
-   reference and then fails to open the inode; the client receives an error, not an entry *)
-Definition create_leaks (c : cfg) (s : istate) (o : op) : bool :=
+(* create on a name that already exists whose open_inode fails: the reference do_lookup took on
+   this number is given back before the error is returned (it used to be kept: defect D9, fixed) *)
+Definition create_undo (c : cfg) (s : istate) (o : op) : option N :=
   match o with
   | OCreate p (Some t) true ok =>
-      valid s p &&
-      match lookup_reply c s t with
-      | (RIno _, _) => match fst (step c s o) with RIno _ => false | _ => true end
-      | _ => false
-      end
-  | _ => false
+      if valid s p then
+        match lookup_reply c s t with
+        | (RIno i, _) => match fst (step c s o) with RIno _ => None | _ => Some i end
+        | _ => None
+        end
+      else None
+  | _ => None
+  end.
+
+(* what the table does in that case, on the ledger: +1 then -1 on the same number (identity except
+   for the root, which cannot be forgotten, and at saturation) *)
+Definition spec_step_u (f : N -> N) (o : op) (r : reply) (u : option N) : N -> N :=
+  match u with
+  | Some i => spec_forget (spec_give f i) i 1
+  | None => spec_step f o r
   end.
 
 (* ---------------------------------------------------------------- observation used by the tie *)
